@@ -102,7 +102,15 @@ func runHandle(id string, parts []string) string {
 	start := time.Now()
 	var resps [][]byte
 	var st string
-	if f["ka"] == "1" {
+	if f["raw"] != "" {
+		// kind dohget: the dns parameter is sent as the given raw text; q= is the message it is expected to decode to
+		// (only used to script the fake upstream)
+		raw, err := hx.UnHex(f["raw"])
+		if err != nil {
+			return "HARNESS-ERROR bad hex"
+		}
+		resps, st = env.QueryRawGet(f["l"], raw, f["client"], timeout)
+	} else if f["ka"] == "1" {
 		// the query travels on a persistent client connection (second and later query on a connection / session)
 		resps, st = env.QueryKA(f["l"], q, f["client"], timeout, 25*time.Millisecond)
 	} else {
@@ -275,6 +283,7 @@ func runCachedSeq(id string, parts []string) string {
 //   The queries are sent back to back from one client (one connection on stream listeners), so that the client limiter
 //   refuses the later ones.  Result: n=<k> r1=<st>:<hex|-> .. upn=<number of upstream queries seen for the first question>
 func init() {
+	register("dohget", 8, runHandle)
 	register("recover", 4, runRefusal)
 	register("refusal", 8, runRefusal)
 }
